@@ -24,6 +24,16 @@
 // in real life, feeding the decoder with artificial data can confuse the
 // logic" - therefore never mixed in one run.)
 //
+// Handler population (any mode): up to four handlers (slots, distinct functions).  Slot 0 always listens to
+// NETWORK | NETWORK_ID | TTX_PAGE (the model's view of the decoder's station), its other event types and the other
+// slots' masks are seeded and change at script points ("handler" ops: vbi_event_handler_register / _unregister /
+// the deprecated _add / _remove).  One event raised by the library is evaluated once, at its delivery to the
+// lowest subscribed slot.
+//
+// Real re-tunes (mode 1): a station change accompanied by dropped frames ("gap" next to "station").  A gap makes the
+// decoder suspect a channel switch (vbi_decode() documentation); the model grants ONE assumed switch per suspicion
+// and returns to the strict clauses once the suspicion is visibly resolved (see resolve_suspicion()).
+//
 // Exact attribution of events to the line being decoded is obtained with
 // link-time wrappers around the four per-line entry points vbi_decode() calls
 // (worlds/w_c13.mk); the wrappers only observe.
@@ -354,6 +364,91 @@ struct C13 : World {
         p.ops.push_back(o);
       }
     }
+    // ---- dimensions added later.  Separate random streams and post-hoc insertion keep the base plan of a seed (and
+    // ---- every older replay file) what it was; all new op arguments / knobs default to the old behaviour when absent.
+    auto insert_script_op = [&](Rng& rr, const Op& o) {  // before a random script op, or behind the last one
+      std::vector<size_t> pos;
+      for (size_t i = 0; i < p.ops.size(); i++) if (p.ops[i].task == 0) pos.push_back(i);
+      size_t k = (size_t)rr.below(pos.size() + 1);
+      size_t at = k < pos.size() ? pos[k] : (pos.empty() ? 0 : pos.back() + 1);
+      p.ops.insert(p.ops.begin() + (long)at, o);
+    };
+    {
+      // Teletext pages in all eight magazines (third page argument; absent / 0 = magazine 1)
+      Rng rp(seed, "page-magazines");
+      for (auto& o : p.ops) if (o.kind == "page" && rp.chance(1, 2)) o.a.push_back(1 + (int64_t)rp.below(8));
+    }
+    if (mode == 1) {
+      // Real re-tunes: the station change comes together with dropped frames (capture stalls while the tuner is
+      // re-tuned), the new station then keeps transmitting its identifiers and Teletext pages for a long time.
+      Rng rz(seed, "retune");
+      auto gap_op = [&] { Op g; g.task = 0; g.kind = "gap"; g.a = {1 + (int64_t)rz.below(60)}; return g; };
+      auto wait_op = [&](int lo, int hi) { Op w; w.task = 0; w.kind = "wait"; w.a = {lo + (int64_t)rz.below((uint64_t)(hi - lo + 1))}; return w; };
+      auto new_pages = [&](std::vector<Op>& out) {
+        int n = (int)rz.below(4);
+        for (int i = 0; i < n; i++) {
+          out.push_back(wait_op(3, 25));
+          Op pg; pg.task = 0; pg.kind = "page"; pg.a = {(int64_t)rz.below(90), (int64_t)rz.below(1000), rz.chance(3, 4) ? 2 + (int64_t)rz.below(7) : 1};
+          out.push_back(pg);
+        }
+      };
+      auto retune = [&](std::vector<Op>& out, const Op& st) {
+        switch (rz.below(3)) {
+          case 0: out.push_back(gap_op()); out.push_back(st); break;
+          case 1: out.push_back(st); out.push_back(gap_op()); break;
+          default: out.push_back(st); out.push_back(wait_op(1, 8)); out.push_back(gap_op()); break;
+        }
+        new_pages(out);
+      };
+      std::vector<Op> out; bool first = true; const Op* last_station = nullptr;
+      for (auto& o : p.ops) {
+        bool st = o.task == 0 && o.kind == "station";
+        if (st && !first && rz.chance(1, 2)) retune(out, o); else out.push_back(o);
+        if (st) first = false;
+      }
+      p.ops.swap(out);
+      for (auto& o : p.ops) if (o.task == 0 && o.kind == "station") last_station = &o;
+      if (last_station && rz.chance(1, 2)) {  // a last re-tune, followed by nothing but the new station's transmissions
+        Op st = *last_station; st.a[0] = (int64_t)rz.below(100000); st.a[3] = (int64_t)rz.below(1 << 30);
+        std::vector<Op> tail; tail.push_back(wait_op(4, 30)); retune(tail, st);
+        for (auto& o : tail) p.ops.push_back(o);
+      }
+      for (int t = 1; t <= 4; t++) {  // carriers present in this run go on for another 50-110 receptions
+        bool present = false; for (auto& o : p.ops) if (o.task == t && o.kind == "rx") present = true;
+        if (!present) continue;
+        int n = 50 + (int)rz.below(60);
+        for (int i = 0; i < n; i++) {
+          Op o; o.task = t; o.kind = "rx";
+          int f = F_NONE;
+          if (faults && rz.chance(1, 7)) { f = (int)rz.below(F_N); if (!(enabled >> f & 1)) f = F_NONE; }
+          int64_t mask = rz.chance(1, 2) ? (int64_t)1 << rz.below(16) : 1 + (int64_t)rz.below(0xFFFF);
+          o.a = {f, mask, (int64_t)rz.below(1000)};
+          p.ops.push_back(o);
+        }
+      }
+    }
+    {
+      // Handler population: which event types slot 0 listens to besides NETWORK | NETWORK_ID | TTX_PAGE, further
+      // handlers registered / re-registered with another mask / removed at script points.  Mask bits: 0 NETWORK,
+      // 1 NETWORK_ID, 2 PROG_ID, 3 LOCAL_TIME, 4 ASPECT, 5 PROG_INFO, 6 TTX_PAGE.
+      Rng rh(seed, "handlers");
+      if (rh.chance(1, 2)) {
+        p.knobs["h0_mask"] = (int64_t)rh.below(128);
+        int n = 1 + (int)rh.below(5);
+        for (int i = 0; i < n; i++) {
+          Op o; o.task = 0; o.kind = "handler";
+          int64_t m;
+          switch (rh.below(4)) {
+            case 0: m = 0; break;                                         // remove
+            case 1: m = (int64_t)1 << (2 + rh.below(4)); break;           // one of PROG_ID, LOCAL_TIME, ASPECT, PROG_INFO
+            case 2: m = (int64_t)(rh.below(4) << 4) | (int64_t)rh.below(16); break;
+            default: m = (int64_t)rh.below(128); break;
+          }
+          o.a = {(int64_t)rh.below(4), m, (int64_t)rh.below(2)};  // slot, mask, API (0 register / unregister, 1 deprecated add / remove)
+          insert_script_op(rh, o);
+        }
+      }
+    }
     return p;
   }
 
@@ -377,6 +472,15 @@ struct C13 : World {
   std::set<int> must_pages, maybe_pages; bool pending_drop = false; int net_epoch = 0;
   XdsRef xref; bool have_name = false, have_call = false; std::string last_name, last_call; int name_streak = 0;
   int xds_last_sender = -1;
+  // handler population: slot -> event mask currently registered (0 = not registered)
+  enum { NSLOT = 4 };
+  unsigned hmask[NSLOT] = {0, 0, 0, 0};
+  // "is not announced again while the same value keeps arriving" is judged from the point of view of a client that
+  // received the announcement and has listened to that event type ever since: the slots that witnessed the last
+  // ASPECT (PROG_INFO) announcement and kept the type in their mask.  Without such a witness a fresh announcement is
+  // legitimate (accepted, not demanded).
+  bool asp_wit[NSLOT] = {false, false, false, false}, pi_wit[NSLOT] = {false, false, false, false};
+  bool pi_known = false; vbi_aspect_ratio last_pi;
   // a call letter packet that was in transmission when the decoder reset itself for a station change may or may
   // not be delivered (partial packets of the old station are legitimately discarded): both values are accepted
   bool call_open_uncertain = false, have_call_alt = false; std::string last_call_alt;
@@ -387,10 +491,52 @@ struct C13 : World {
   static C13* g;
 
   // ------------------------------------------------------------- handlers --
-  static void handler(vbi_event* ev, void*) {
+  static void h0(vbi_event* ev, void*) { on_event(0, ev); }
+  static void h1(vbi_event* ev, void*) { on_event(1, ev); }
+  static void h2(vbi_event* ev, void*) { on_event(2, ev); }
+  static void h3(vbi_event* ev, void*) { on_event(3, ev); }
+  static vbi_event_handler slot_fn(int s) { static const vbi_event_handler f[NSLOT] = {h0, h1, h2, h3}; return f[s]; }
+  static const unsigned MANDATORY = VBI_EVENT_NETWORK | VBI_EVENT_NETWORK_ID | VBI_EVENT_TTX_PAGE;
+  static unsigned bits_to_mask(int64_t b) {
+    static const unsigned t[7] = {VBI_EVENT_NETWORK, VBI_EVENT_NETWORK_ID, VBI_EVENT_PROG_ID, VBI_EVENT_LOCAL_TIME, VBI_EVENT_ASPECT, VBI_EVENT_PROG_INFO, VBI_EVENT_TTX_PAGE};
+    unsigned m = 0; for (int i = 0; i < 7; i++) if (llabs(b) >> i & 1) m |= t[i];
+    return m;
+  }
+  // the lowest slot subscribed to the type: every event of that type is delivered to it exactly once, in the order raised
+  // (masks change between frames only); -1 = events of this type are not observable at present
+  int leader(unsigned type) const { for (int s = 0; s < NSLOT; s++) if (hmask[s] & type) return s; return -1; }
+  bool any_wit(const bool* w) const { for (int s = 0; s < NSLOT; s++) if (w[s]) return true; return false; }
+  void set_handler(const Op& op) {
+    flush();  // between frames
+    int slot = (int)(llabs(op.arg(0)) % NSLOT);
+    unsigned m = bits_to_mask(op.arg(1) % 128);
+    if (slot == 0) m |= MANDATORY;  // the model's view of the decoder's station must not be interrupted
+    bool old_api = llabs(op.arg(2)) & 1;
+    ctx->log("handler slot %d mask %x -> %x (%s)", slot, hmask[slot], m, old_api ? "add/remove" : "register/unregister");
+    budget_begin("vbi_event_handler_register", 1000000);
+    { SutScope ss;
+      vbi_bool ok = TRUE;
+      if (m == 0) { if (old_api) vbi_event_handler_remove(dec, slot_fn(slot)); else vbi_event_handler_unregister(dec, slot_fn(slot), &hmask[slot]); }
+      else ok = old_api ? vbi_event_handler_add(dec, (int)m, slot_fn(slot), &hmask[slot]) : vbi_event_handler_register(dec, (int)m, slot_fn(slot), &hmask[slot]);
+      if (!ok) { HarnessScope hs; ctx->fail("harness:handler-register", "registration failed"); }
+    }
+    budget_end();
+    ctx->count(m == 0 ? (hmask[slot] ? "handler_removed" : "handler_remove_absent") : hmask[slot] ? "handler_mask_changed" : "handler_added");
+    unsigned both = VBI_EVENT_ASPECT | VBI_EVENT_PROG_INFO, before = 0, after = 0;
+    for (int s = 0; s < NSLOT; s++) { before |= hmask[s]; after |= (s == slot ? m : hmask[s]); }
+    if ((before & both) && (before & both) != both && (after & both) == both) ctx->count("handler_adds_other_proginfo_event");
+    if (!(before & both) && (after & both)) ctx->count("handler_proginfo_events_enabled_afresh");
+    hmask[slot] = m;
+    if (!(m & VBI_EVENT_ASPECT)) asp_wit[slot] = false;
+    if (!(m & VBI_EVENT_PROG_INFO)) pi_wit[slot] = false;
+  }
+  static void on_event(int slot, vbi_event* ev) {
     HarnessScope hs;
     if (!g) return;
     C13& w = *g;
+    // (which handler receives what is C11's property; here it only has to agree with the model's bookkeeping)
+    if (!(w.hmask[slot] & (unsigned)ev->type)) { w.ctx->fail("harness:handler-mask", "event %d delivered to slot %d registered with mask %x", ev->type, slot, w.hmask[slot]); return; }
+    if (w.leader((unsigned)ev->type) != slot) { if (ev->type != VBI_EVENT_TTX_PAGE) w.ctx->count("event_delivered_to_further_handler"); return; }
     Ev e; memset((void*)&e, 0, sizeof e); e.type = ev->type;
     switch (ev->type) {
       case VBI_EVENT_NETWORK: case VBI_EVENT_NETWORK_ID:
@@ -495,9 +641,45 @@ struct C13 : World {
   static bool asp_same(const vbi_aspect_ratio& a, const vbi_aspect_ratio& b) { return a.first_line == b.first_line && a.last_line == b.last_line && a.ratio == b.ratio && a.film_mode == b.film_mode && a.open_subtitles == b.open_subtitles; }
 
   // station change accepted by the model: bookkeeping for the cache clauses
+  // A timestamp gap (dropped frames) "will be interpreted as frame dropping, which starts a resynchronization cycle,
+  // eventually a channel switch may be assumed which resets even more decoder state" (vbi_decode() documentation).  The
+  // statement is silent about this, so from the gap on (relaxed) the model accepts ONE assumed switch: the station
+  // revoked (blank NETWORK event, or silently when none was identified), every identifier forgotten and announced
+  // afresh, the cache dropped.  It does not say when ("eventually"), so the model stays relaxed until the suspicion is
+  // VISIBLY over, which is the case
+  //  (a) when the assumed switch has been executed (blank NETWORK event that no reception raised), or
+  //  (b) when a change between two identified stations has been confirmed and announced after the gap: this is the
+  //      switch the decoder was suspecting.  "When the identified station does change, exactly one network event is
+  //      raised and the cached pages of the old station are dropped": a further reset for the same re-tune would be a
+  //      second and third network event for one change and would drop the pages of the NEW station.
+  // From there the strict clauses apply again (until the next gap).  While relaxed the decoder may have forgotten the
+  // identifiers of the carriers (silently when no station was identified): on return they count as revoked (blanked[]),
+  // which is the lenient side.  A suspicion that ends invisibly (refuted by the decoder's own means, or executed while
+  // no station was identified) leaves the run relaxed: never more demanded than stated.
+  void resolve_suspicion(int keep_carrier, const char* how) {
+    if (!relaxed) return;
+    relaxed = false;
+    for (int k = 0; k < 3; k++) if (k != keep_carrier) blanked[k] = true;
+    ctx->count(how);
+    ctx->log("suspicion resolved: %s", how);
+  }
+  // the assumed switch was executed: blank NETWORK event not raised by an identifier reception
+  void assumed_switch_executed() {
+    net_epoch++;
+    any_net = true; last_net_nuid = 0; last_net_name.clear(); last_net_call.clear();
+    aspect_known = false; pi_known = false;
+    for (int k = 0; k < 3; k++) blanked[k] = true;
+    dirty = true;
+    // the station is no longer identified: the statement is silent about the cache (but a later change between
+    // identified stations must still find the old pages gone)
+    for (int p : must_pages) maybe_pages.insert(p);
+    must_pages.clear(); pending_drop = false;
+    ctx->count("gap_reset_network");
+  }
   void network_changed(bool from_identified, bool to_identified) {
     net_epoch++; legit_net++;
     aspect_known = false;  // the reset may announce the aspect again (vbi_channel_switched documentation: "blank events ... revoking")
+    pi_known = false;
     if (from_identified && to_identified) { pending_drop = true; ctx->count("station_switch_identified"); }
     else { for (int p : must_pages) maybe_pages.insert(p); must_pages.clear(); }  // first identification / station lost: the statement is silent about the cache
   }
@@ -547,7 +729,11 @@ struct C13 : World {
           if (!confirmed) { ctx->fail("oracle:c13-network-early", "NETWORK (nuid %u) on %s line after %d reception(s) of 0x%x in a row: not received again unchanged", e.net.nuid, kind_name[c], streak[c], last[c]); return; }
           if (!check_cni_payload(e.net, c, line_blank, "NETWORK")) return;
           if (any_net && e.net.nuid == last_net_nuid) { ctx->fail("oracle:c13-network-repeat", "NETWORK raised again for nuid %u '%s' although the identified station did not change", e.net.nuid, (const char*)e.net.name); return; }
-          network_changed(any_net && last_net_nuid != 0, e.net.nuid != 0);
+          {
+            bool from_id = any_net && last_net_nuid != 0, to_id = e.net.nuid != 0;
+            network_changed(from_id, to_id);
+            if (relaxed && from_id && to_id) resolve_suspicion(c, "suspicion_resolved_by_station_change");
+          }
           any_net = true; last_net_nuid = e.net.nuid; saw_net = true;
           break;
         }
@@ -604,27 +790,46 @@ struct C13 : World {
     if (c == C_VPS && L.valid) vps_pids.insert(std::make_tuple(L.cni, L.pid.pil, L.pid.pcs, L.pid.pty));
   }
 
+  // fidelity and debounce of an aspect ratio announced from a WSS line (ASPECT event, or the aspect inside PROG_INFO)
+  bool check_aspect_value(const Line& L, const vbi_aspect_ratio& v, const char* what) {
+    // "after several identical repeats": no number is documented; the weakest reading (a reception and two repeats) is demanded
+    if (wss_streak < 3) { ctx->fail("oracle:c13-aspect-early", "%s after %d identical reception(s) of WSS word %04x", what, wss_streak, L.word); return false; }
+    if (!wss_parity_ok(L.word)) { ctx->fail("oracle:c13-aspect-parity", "%s from WSS word %04x whose aspect ratio group has even parity", what, L.word); return false; }
+    Aspect a = wss_aspect(L.word);
+    // anamorphic: the representation of the ratio is the library's choice (documented "16/9 for example", implemented 3/4)
+    bool ratio_ok = a.anamorphic ? (v.ratio != 1.0 && v.ratio > 0.5 && v.ratio < 2.0) : v.ratio == 1.0;
+    if (!aspect_lines_ok(a.fmt, v.first_line, v.last_line) || !ratio_ok || !!v.film_mode != !!a.film || (int)v.open_subtitles != a.subt) {
+      ctx->fail("oracle:c13-aspect-fidelity", "%s %d-%d ratio %.3f film %d subt %d from WSS word %04x (format %d film %d subtitles %d)", what, v.first_line, v.last_line, v.ratio, v.film_mode, (int)v.open_subtitles, L.word, a.fmt, a.film, a.subt);
+      return false;
+    }
+    return true;
+  }
   void eval_wss_line(const Line& L, std::vector<Ev>& evs) {
     bool saw_aspect = false;
+    bool aspect_observable = leader(VBI_EVENT_ASPECT) >= 0;
     for (Ev& e : evs) {
       if (ctx->failed) return;
       if (e.type == VBI_EVENT_ASPECT) {
         if (saw_aspect) { ctx->fail("oracle:c13-aspect-repeat", "two ASPECT events from one WSS line"); return; }
-        // "after several identical repeats": no number is documented; the weakest reading (a reception and two repeats) is demanded
-        if (wss_streak < 3) { ctx->fail("oracle:c13-aspect-early", "ASPECT after %d identical reception(s) of WSS word %04x", wss_streak, L.word); return; }
-        if (!wss_parity_ok(L.word)) { ctx->fail("oracle:c13-aspect-parity", "ASPECT from WSS word %04x whose aspect ratio group has even parity", L.word); return; }
-        Aspect a = wss_aspect(L.word);
-        // anamorphic: the representation of the ratio is the library's choice (documented "16/9 for example", implemented 3/4)
-        bool ratio_ok = a.anamorphic ? (e.asp.ratio != 1.0 && e.asp.ratio > 0.5 && e.asp.ratio < 2.0) : e.asp.ratio == 1.0;
-        if (!aspect_lines_ok(a.fmt, e.asp.first_line, e.asp.last_line) || !ratio_ok || !!e.asp.film_mode != !!a.film || (int)e.asp.open_subtitles != a.subt) {
-          ctx->fail("oracle:c13-aspect-fidelity", "ASPECT %d-%d ratio %.3f film %d subt %d from WSS word %04x (format %d film %d subtitles %d)", e.asp.first_line, e.asp.last_line, e.asp.ratio, e.asp.film_mode, (int)e.asp.open_subtitles, L.word, a.fmt, a.film, a.subt);
-          return;
-        }
-        if (!relaxed && aspect_known && asp_same(e.asp, last_aspect)) { ctx->fail("oracle:c13-aspect-repeat", "ASPECT announced again although unchanged (WSS word %04x)", L.word); return; }
+        if (!check_aspect_value(L, e.asp, "ASPECT")) return;
+        // "is not announced again while the same value keeps arriving": to a handler that received the announcement and has
+        // been registered for ASPECT ever since (whatever other handlers came and went)
+        if (!relaxed && aspect_known && any_wit(asp_wit) && asp_same(e.asp, last_aspect)) { ctx->fail("oracle:c13-aspect-repeat", "ASPECT announced again although unchanged (WSS word %04x)", L.word); return; }
+        if (aspect_known && !any_wit(asp_wit) && asp_same(e.asp, last_aspect)) ctx->count("aspect_fresh_announcement_without_witness");
         last_aspect = e.asp; aspect_known = true; saw_aspect = true;
+        for (int k = 0; k < NSLOT; k++) asp_wit[k] = (hmask[k] & VBI_EVENT_ASPECT) != 0;
         ctx->count("aspect_events");
       } else if (e.type == VBI_EVENT_PROG_INFO) {
-        if (!saw_aspect || !asp_same(e.pi_asp, last_aspect)) { ctx->fail("oracle:c13-proginfo-fidelity", "PROG_INFO from a WSS line %s", saw_aspect ? "with an aspect different from the ASPECT event" : "without aspect change"); return; }
+        if (aspect_observable) {
+          if (!saw_aspect || !asp_same(e.pi_asp, last_aspect)) { ctx->fail("oracle:c13-proginfo-fidelity", "PROG_INFO from a WSS line %s", saw_aspect ? "with an aspect different from the ASPECT event" : "without aspect change"); return; }
+        } else {
+          // nobody listens to ASPECT: PROG_INFO is the aspect ratio announcement, held to the same clauses
+          if (!check_aspect_value(L, e.pi_asp, "PROG_INFO aspect")) return;
+          ctx->count("proginfo_without_aspect_handler");
+        }
+        if (!relaxed && pi_known && any_wit(pi_wit) && asp_same(e.pi_asp, last_pi)) { ctx->fail("oracle:c13-aspect-repeat", "PROG_INFO announced the aspect ratio again although unchanged (WSS word %04x)", L.word); return; }
+        last_pi = e.pi_asp; pi_known = true;
+        for (int k = 0; k < NSLOT; k++) pi_wit[k] = (hmask[k] & VBI_EVENT_PROG_INFO) != 0;
       } else { ctx->fail("oracle:c13-event-spurious", "event %d raised by a WSS line", e.type); return; }
     }
   }
@@ -691,7 +896,9 @@ struct C13 : World {
       case L_XDS: eval_xds_line(L, evs); break;
       default:
         for (Ev& e : evs) {
-          if (relaxed && ((e.type == VBI_EVENT_NETWORK && net_blank(e.net)) || (e.type == VBI_EVENT_ASPECT && asp_blank(e.asp)))) continue;
+          // (the Teletext decoder has its own channel switch detection; only while a switch is suspected anyway)
+          if (relaxed && e.type == VBI_EVENT_NETWORK && net_blank(e.net)) { assumed_switch_executed(); continue; }
+          if (relaxed && e.type == VBI_EVENT_ASPECT && asp_blank(e.asp)) continue;
           ctx->fail("oracle:c13-event-spurious", "event %d raised by a %s line", e.type, kind_name[L.kind]);
           return;
         }
@@ -703,7 +910,12 @@ struct C13 : World {
     if (ctx->failed) { sl.clear(); lines.clear(); memset(in_frame, 0, sizeof in_frame); return; }
     if (sl.empty() && !force) return;
     double step = dt;
-    if (next_gap > 0) { step = dt * (1 + next_gap); next_gap = 0; relaxed = true; must_pages.clear(); maybe_pages.clear(); pending_drop = false; ctx->count("fault_gap"); }
+    if (next_gap > 0) {
+      step = dt * (1 + next_gap); next_gap = 0; relaxed = true; pending_drop = false; ctx->count("fault_gap");
+      // the assumed switch may drop what is cached; pages of this station must still be gone after a real change
+      for (int pg : must_pages) maybe_pages.insert(pg);
+      must_pages.clear();
+    }
     ts += step;
     ctx->log("frame ts+%.3f lines %zu", step, sl.size());
     cur_line = -1; pre_events.clear(); line_events.clear(); in_decode = true;
@@ -712,12 +924,21 @@ struct C13 : World {
     budget_end();
     in_decode = false;
     if (!ctx->failed && cur_line + 1 != (int)lines.size()) ctx->fail("harness:line-count", "frame of %zu lines, %d dispatched", lines.size(), cur_line + 1);
+    bool pre_switch = false;
     for (Ev& e : pre_events) {
       if (ctx->failed) break;
-      // before the first line only the channel switch countdown can act (after a timestamp gap)
-      bool ok = relaxed && ((e.type == VBI_EVENT_NETWORK && net_blank(e.net)) || (e.type == VBI_EVENT_ASPECT && asp_blank(e.asp)));
-      if (!ok) ctx->fail("oracle:c13-event-spurious", "event %d raised before any line of the frame was decoded", e.type);
-      else if (e.type == VBI_EVENT_NETWORK) { any_net = true; last_net_nuid = 0; last_net_name.clear(); last_net_call.clear(); aspect_known = false; ctx->count("gap_reset_network"); }
+      // before the first line only an assumed channel switch can act (after a timestamp gap, see resolve_suspicion())
+      if (e.type == VBI_EVENT_NETWORK && net_blank(e.net) && (relaxed || pre_switch)) {
+        if (!pre_switch) assumed_switch_executed();
+        pre_switch = true;
+        // (a): the decoder has acted on its suspicion, a mode 1 run is strict again.  (XDS runs have no gaps.)
+        if (mode == 1) resolve_suspicion(-1, "suspicion_resolved_by_assumed_switch");
+      } else if (e.type == VBI_EVENT_ASPECT && asp_blank(e.asp) && (relaxed || pre_switch)) {
+        ctx->count("aspect_blank");
+      } else if (e.type == VBI_EVENT_NETWORK) {
+        ctx->fail("oracle:c13-network-spurious", "NETWORK event (nuid %u) raised by no reception: the station %s and no frames were dropped since", e.net.nuid,
+                  legit_net ? "did not change since the last NETWORK event" : "was never announced");
+      } else ctx->fail("oracle:c13-event-spurious", "event %d raised before any line of the frame was decoded", e.type);
     }
     sl.clear(); lines.clear(); memset(in_frame, 0, sizeof in_frame);
     if (ctx->failed || relaxed) return;
@@ -759,14 +980,16 @@ struct C13 : World {
 
   // a Teletext page transmitted in one frame (header, two rows, terminating header); all stations use the same
   // header text (the header comparison of the Teletext decoder is another mechanism, not part of C13)
-  void send_page(int page_bcd, int seed) {
+  // magazine 1-8 (0 = 1): parallel magazine transmission, the page is terminated by the next header of its magazine
+  void send_page(int page_bcd, int seed, int magazine = 1) {
     flush();
     int epoch = net_epoch;
-    int pgno = 0x100 + page_bcd;
+    int mag = magazine < 1 || magazine > 8 ? 1 : magazine;
+    int pgno = mag * 0x100 + page_bcd;
     auto hdr = [&](int page, bool erase) {
-      char t[40]; snprintf(t, sizeof t, "ZSIMTEXT%03X Network News AB12:34:56", 0x100 + page);
+      char t[40]; snprintf(t, sizeof t, "ZSIMTEXT%03X Network News AB12:34:56", mag * 0x100 + page);
       uint8_t text[32]; memcpy(text, t, 32);
-      return ttx::header(1, page, 0, erase ? ttx::C4_ERASE : 0, text);
+      return ttx::header(mag, page, 0, erase ? ttx::C4_ERASE : 0, text);
     };
     Line L; L.kind = L_TTX;
     int save_max = frame_max; frame_max = 8;
@@ -774,7 +997,7 @@ struct C13 : World {
     sl.push_back(ttx_sliced(h.b, 7)); lines.push_back(L);
     for (int y = 1; y <= 2; y++) {
       uint8_t ch[40]; for (int i = 0; i < 40; i++) ch[i] = (uint8_t)(0x41 + (seed + i * y) % 26);
-      ttx::Packet rw = ttx::row(1, y, ch);
+      ttx::Packet rw = ttx::row(mag, y, ch);
       sl.push_back(ttx_sliced(rw.b, 7 + y)); lines.push_back(L);
     }
     ttx::Packet e = hdr(0x99, true);
@@ -782,8 +1005,11 @@ struct C13 : World {
     ctx->log("tx page %x", pgno);
     flush();
     frame_max = save_max;
-    if (ctx->failed || relaxed) return;
+    if (ctx->failed) return;
     int c; { SutScope ss; c = vbi_is_cached(dec, pgno, VBI_ANY_SUBNO); }
+    if (mag > 1) ctx->count("pages_other_magazines");
+    // while a channel switch is suspected the page may be dropped with the assumed switch (and must be with a real one)
+    if (relaxed) { if (c) { maybe_pages.insert(pgno); must_pages.erase(pgno); } return; }
     if (c && epoch == net_epoch) { must_pages.insert(pgno); maybe_pages.erase(pgno); ctx->count("pages_precached"); }
     else ctx->count("page_not_cached_unchecked");  // storing pages is C02's business
   }
@@ -962,11 +1188,15 @@ struct C13 : World {
     xref = XdsRef(); have_name = have_call = false; last_name.clear(); last_call.clear(); name_streak = 0; xds_last_sender = -1;
     call_open_uncertain = have_call_alt = false; last_call_alt.clear(); xds_dirty = false; stable_names = 0;
     receptions = legit_net = quiet_receptions = 0;
+    for (int k = 0; k < NSLOT; k++) { hmask[k] = 0; asp_wit[k] = pi_wit[k] = false; }
+    hmask[0] = bits_to_mask(plan.knob("h0_mask", 0x7F) % 128) | MANDATORY;  // absent: every event type of the property (older plans)
+    pi_known = false; memset((void*)&last_pi, 0, sizeof last_pi);
     Sched sched(c, (uint64_t)plan.knob("sched_seed", (int64_t)plan.seed), (Policy)(llabs(plan.knob("policy")) % 3), (int)plan.knob("pparam"));
     { SutScope ss;
       dec = vbi_decoder_new();
-      vbi_event_handler_register(dec, VBI_EVENT_NETWORK | VBI_EVENT_NETWORK_ID | VBI_EVENT_PROG_ID | VBI_EVENT_LOCAL_TIME | VBI_EVENT_ASPECT | VBI_EVENT_PROG_INFO | VBI_EVENT_TTX_PAGE, handler, nullptr);
+      vbi_event_handler_register(dec, (int)hmask[0], slot_fn(0), &hmask[0]);
     }
+    c.log("handler slot 0 mask %x", hmask[0]);
     const int NT = 5;
     std::vector<std::vector<const Op*>> per(NT);
     for (auto& op : plan.ops) per[(size_t)(((op.task % NT) + NT) % NT)].push_back(&op);
@@ -977,7 +1207,8 @@ struct C13 : World {
         if (op->kind == "station") set_station(*op);
         else if (op->kind == "prog") { set_prog(air, (uint64_t)op->arg(0)); c.log("prog pil=%x", air.prog.pil); }
         else if (op->kind == "wss") { set_wss(air, (int)op->arg(0)); c.log("wss %04x", air.wss); }
-        else if (op->kind == "page") { int pg = (int)(llabs(op->arg(0)) % 90); send_page((pg / 10) * 16 + pg % 10, (int)(llabs(op->arg(1)) % 1000)); }
+        else if (op->kind == "page") { int pg = (int)(llabs(op->arg(0)) % 90); send_page((pg / 10) * 16 + pg % 10, (int)(llabs(op->arg(1)) % 1000), (int)(llabs(op->arg(2)) % 9)); }
+        else if (op->kind == "handler") set_handler(*op);
     };
     for (size_t i = 0; i < per[0].size() && !c.failed; i++)
       if (per[0][i]->kind == "station") { for (size_t k = 0; k <= i; k++) script_op(per[0][k]); script_start = i + 1; break; }
@@ -986,7 +1217,7 @@ struct C13 : World {
       for (size_t oi = script_start; oi < per[0].size(); oi++) {
         const Op* op = per[0][oi];
         if (c.failed) return;
-        if (op->kind == "station" || op->kind == "prog" || op->kind == "wss" || op->kind == "page") script_op(op);
+        if (op->kind == "station" || op->kind == "prog" || op->kind == "wss" || op->kind == "page" || op->kind == "handler") script_op(op);
         else if (op->kind == "wait") { int n = (int)(llabs(op->arg(0)) % 64); for (int i = 0; i < n && !c.failed; i++) sched.yield(); continue; }
         else if (op->kind == "idle") { int n = (int)(llabs(op->arg(0)) % 64); flush(); for (int i = 0; i < n && !c.failed; i++) flush(true); }  // frames without data
         else if (op->kind == "gap") { if (mode == 1) { flush(); next_gap = 1 + (double)(llabs(op->arg(0)) % 80); flush(true); } }
